@@ -4,6 +4,7 @@ import (
 	"fmt"
 	"go/token"
 	"go/types"
+	"strings"
 
 	"golang.org/x/tools/go/ssa"
 )
@@ -78,6 +79,9 @@ func (e *Eval) instr(fr *Frame, in ssa.Instruction, st *State, cur string) (stri
 			}
 			r := c.Define(fr.prefix+x.Name(), c.Sort(t), e.load(st, v, t))
 			e.noteVal(t, r)
+			if v.A != nil && v.A.Kind == "field" && len(v.A.Path) == 0 && strings.HasSuffix(v.A.Comp, ".fidRef.file") {
+				e.prov[r] = v.A.Base
+			}
 			fr.vals[x] = Val{T: r}
 		case token.NOT:
 			fr.vals[x] = Val{T: not(v.T)}
